@@ -17,6 +17,9 @@ type c13Node struct {
 	handle uint8
 	parent int   // -1: none
 	kids   []int // ordered child list
+	// ptr is the *Object the tree handed out when the node was created; like the
+	// parser, the harness keeps using it for as long as the node lives
+	ptr *Object
 }
 
 // c13Model is the reference tree: slot i mirrors pool index i.
